@@ -127,8 +127,11 @@ def c04_scenarios(tier):
             if len(paths) > 1:
                 modes.append(("changed", "head", paths[: (len(paths) + 1) // 2], None, False))
                 modes.append(("deps", None, [], [paths[0]], True))
+                # -t naming a set that is already closed under dependencies (--deps adds nothing), in
+                # an order that is not a dependency order
+                modes.append(("deps-closed", None, [], list(reversed(paths)), True))
             if tier == "quick" and len(cmds) > 1:
-                modes = modes[:1] + modes[2:3]
+                modes = modes[:1] + modes[2:4]
             for mname, cp, changed, explicit, deps in modes:
                 a = list(args)
                 if explicit:
